@@ -28,16 +28,28 @@ def replay(h, res, pid, kani_cmd, sh, verif, logs, env):
                 max(3 * h["timeout"], 1800), os.path.join(verif, h["crate"]), h.get("guard", True))
     text = open(log, errors="replace").read()
     def check_msg(t):
-        m = re.search(r"/// Check for `[^`]*`: (.*)", t)
+        m = re.search(r"/// Check for `[^`]*`: (.*?)(?=\n///\s*\n|\n\s*\n|\n#\[test\])", t, re.S)
         d = m.group(1) if m else ""
-        if "concat! (" in d:
-            d = "".join(re.findall(r'"([^"]*)"', d[d.index("concat! ("):]))
+        d = re.sub(r"\n///\s?", "\n", d)
+        if re.search(r"concat!\s*\(", d):
+            d = "".join(re.findall(r'"([^"]*)"', d[d.index("concat!"):]))
         return d.strip('"')
-    tests = [t for t in extract_tests(text) if check_msg(t).startswith(pid + ":")]
+    never_completes = any("never completes" in f["desc"] for f in res["failed"])
+    unreachable_hit = any(": unreachable:" in f["desc"] for f in res["failed"])
+    all_tests = extract_tests(text)
+    tests = [t for t in all_tests if check_msg(t).startswith(pid + ":") or any(check_msg(t).startswith(p + ":") for p in h.get("also", []))]
+    if never_completes:
+        # "no path reaches the end": any reachable panic is a witness; natively the
+        # run must panic instead of completing
+        tests += [t for t in all_tests if "/// Check for `cover`" not in t and t not in tests]
+    if unreachable_hit:
+        # the forbidden point was reached: Kani emits a playback test for the satisfied cover
+        tests += [t for t in all_tests if "unreachable:" in check_msg(t) and t not in tests]
     # complete schedules first (they replay without junk from unrealisable guesses)
     tests.sort(key=lambda t: 0 if "[replayable]" in check_msg(t) else 1)
     tests = tests[:3]
     rec = dict(property=pid, harness=h["harness"], crate=h["crate"], failed=res["failed"],
+               never_completes=never_completes, unreachable_hit=unreachable_hit, also=h.get("also", []),
                tests=tests, kani_flags=h.get("kani_flags", ""), guard=h.get("guard", True))
     path = base + ".json"
     if not tests:
@@ -80,9 +92,18 @@ def run_tests(rec, verif, sh, logs):
             sh(cmd, log, 1200, scratch, rec.get("guard", True))
             out = open(log, errors="replace").read()
             m = re.search(r"panicked at [^\n]*\n([^\n]*)", out)
-            if m and m.group(1).lstrip('"').startswith(pid + ":"):
+            msg = m.group(1).lstrip('"') if m else ""
+            ids = [pid] + list(rec.get("also", []))
+            hit = m and any(msg.startswith(i + ":") for i in ids)
+            if not hit and rec.get("never_completes") and m and "test result: ok" not in out and not re.match(r"C\d\d:", msg):
+                # the operation panicked natively instead of completing
+                hit = True
+            if not hit and rec.get("unreachable_hit") and "test result: ok" in out:
+                # the run completed natively although it must have been refused
+                hit = True
+            if hit:
                 reproduced = True
-                rec.setdefault("native", []).append(dict(test=name, profile=profile or "dev", panic=m.group(1)))
+                rec.setdefault("native", []).append(dict(test=name, profile=profile or "dev", panic=msg))
         if reproduced:
             break
     shutil.rmtree(scratch, ignore_errors=True)
